@@ -1,9 +1,17 @@
 """C08 - boost and rotation expressions are proper Lorentz transformations.
 
-R-PRINT   every value interpolated into generated NumPy/Python code went through the printer.
-R-TERM    explicit matrix (as_explicit) == matrix laid out by the _numpycode template with the
-          arguments that evaluate() passes (4 classes x 16 entries).
-R-LORENTZ M^T eta M == eta for the explicit matrices, modulo one defining relation each.
+R-PRINT   every value written into generated NumPy/Python code went through the printer (three-valued flow
+          analysis that follows helpers of any kind: PRINTED / RAW = violation / UNKNOWN = ANALYSIS-ERROR).
+R-TERM    explicit matrix (as_explicit) == matrix that the generated code lays out for the arguments that
+          evaluate() passes (4 classes x 16 entries).  The printer method is RUN on an abstract printer
+          (CodeEval) and its text is parsed, so the way the string is assembled does not matter.
+R-LORENTZ M^T eta M == eta for the explicit matrices, modulo one defining relation each (decided only when
+          the entries are expressed through the atoms the relation is about).
+R-EINSUM  the code of Array/MatrixMultiplication for 1..4 operands is read as a tensor network: it must be the
+          chain T0.T1...T(n-1) over all printed arguments in order (contraction strings included).
+
+Verdicts are three-valued: a violation needs positive evidence inside a shape the rule understands; a shape it
+cannot interpret is an ANALYSIS-ERROR with the reason, never a violation.
 """
 
 from __future__ import annotations
@@ -15,7 +23,7 @@ from ..exprmodel import expression_classes
 from ..loader import AnalysisError, FuncInfo, Tree, unparse, walk_function
 from ..poly import RF, D, Poly, equal, sqrt, sym
 from ..report import Check
-from ..rules import PrintTaint, class_literal_attrs, printer_methods, string_only_methods
+from ..rules import printer_methods
 from ..terms import ExtractionError, Mat, Opaque, TermEval, Tup
 
 PID = "C08"
@@ -30,138 +38,1039 @@ MATRIX_CLASSES = {
 
 # --------------------------------------------------------------------------- R-PRINT
 
+PRINTED, RAW, UNKNOWN = "printed", "raw", "unknown"  # verdicts about a value that becomes part of generated code
+_OBJECTS = {"printer", "self", "printfn", "callable", "class"}  # python objects: not strings at all
+_STR_METHODS = {
+    "join", "format", "strip", "lstrip", "rstrip", "replace", "lower", "upper", "title", "capitalize", "center", "ljust", "rjust",
+    "zfill", "removeprefix", "removesuffix", "expandtabs", "split", "rsplit", "splitlines", "partition", "rpartition", "format_map", "casefold",
+}
+_NUMERIC_BUILTINS = {"len", "int", "range", "bool", "ord", "hash", "id", "round", "chr", "float", "abs", "isinstance", "callable", "hasattr"}
+_TRANSPARENT_BUILTINS = {"str", "repr", "list", "tuple", "sorted", "reversed", "enumerate", "zip", "set", "frozenset", "iter", "next", "dict", "max", "min", "sum", "format", "ascii"}
+_TRANSPARENT_STDLIB = {"itertools.chain", "itertools.zip_longest", "itertools.product", "itertools.islice", "itertools.repeat", "itertools.chain.from_iterable",
+                       "itertools.accumulate", "itertools.starmap", "itertools.pairwise", "itertools.cycle", "textwrap.dedent", "textwrap.indent", "copy.copy", "copy.deepcopy"}
+_PRINT_ATTRS = ("_print", "doprint", "parenthesize")
+_SYMPY_DATA_ATTRS = {"args", "func", "limits", "variables", "function", "free_symbols", "expr", "lhs", "rhs", "base", "exp", "indices", "bound_symbols", "T"}
+_SYMPY_OBJECT_METHODS = {"xreplace", "subs", "doit", "simplify", "expand", "evalf", "replace", "together", "factor", "conjugate", "as_explicit",
+                         "transpose", "inv", "diff", "rewrite", "evaluate", "get_definition", "as_mutable", "as_immutable", "copy", "atoms"}
+_PLAIN_ANNOTATIONS = {"int", "str", "bool", "float", "int | None", "str | None", "bool | None", "float | None", "Optional[int]", "Optional[str]"}
+
+
+class PrintFlow:
+    """What kind of value reaches the generated code of one printer method (three-valued).
+
+    A value is PRINTED when it is a string built only from literals, numbers, printer output (``printer._print`` /
+    ``doprint`` / ``parenthesize`` / ``_print_X``, also through ``map``, ``functools.partial`` or a local alias) and
+    other printed strings - however it is assembled: f-string, ``+``, ``%``, ``.format``, ``join``, comprehensions,
+    locals, containers filled by ``append``, conditional expressions, and HELPERS of any kind (method - of the
+    instance's class, so template methods work -, static method, module-level function, nested function that sees the
+    printer of its definer, generator, lambda): a call of a package function is followed into its body with the
+    parameters bound to the kinds of the arguments, so ``_print_arguments(printer, self)`` and
+    ``_print_matrix_array(rows)`` are read like the code they replaced.  It is RAW - positive evidence of a defect -
+    when a SymPy object (a field of the expression, ``self.args``, an expression built from them, a parameter nobody
+    printed) or the ``str()`` of one is written into the string.  Collections keep their structure (``("tuple", [..])``,
+    ``("seq", elem)``, ``("dict", keys, values)``) so that ``for arg, code in pairs`` / ``a, b = helper()`` / ``zip`` /
+    ``enumerate`` / ``options.items()`` pick the component that is really used; a collection that holds both printed and
+    unprinted values and from which ONE value is taken, the rule cannot tell which, is "mixed" (all of it iterated /
+    joined / written: one unprinted member is a defect).  Mixed and everything the rule cannot interpret are UNKNOWN:
+    the method cannot be decided (ANALYSIS-ERROR), it is neither passed nor reported."""
+
+    def __init__(self, tree: Tree, fn: FuncInfo, classes: dict, receiver=None) -> None:
+        self.tree = tree
+        self.fn = fn
+        self.classes = classes
+        self.receiver = receiver or fn.cls  # the class of the instance: `self.m()` in an inherited printer is ITS method
+        self.count = 0  # interpolated / returned values judged
+        self._literals = None
+        self._rds: dict[str, object] = {}
+        self._memo: dict[tuple, tuple] = {}
+        self._active: list[str] = []
+        self._lambda_bind: dict[int, tuple] = {}
+        self._bindings_of: dict[str, dict] = {}  # function -> the parameter kinds it was last entered with (for its closures)
+
+    # ------------------------------------------------------------------ the domain
+    # scalar kinds: PRINTED (a string / number that may be written), RAW (a SymPy object), "badtext" (a string that
+    # already contains the str() of a SymPy object), UNKNOWN, "mixed" (one of several values of different kinds,
+    # unknown which), and the python objects "self" / "class" / "printer" / "printfn" / "callable"
+    @staticmethod
+    def _struct(k) -> bool:
+        return k[0] in {"tuple", "seq", "dict"}
+
+    @staticmethod
+    def _some(parts: list[tuple[str, str]]) -> tuple[str, str]:
+        """EACH of these values is used (elements of a collection that is iterated / joined, the definitions that
+        reach a use on different paths): one unprinted value among them is a defect."""
+        if not parts:
+            return PRINTED, ""
+        for name in ("badtext", RAW, UNKNOWN, "mixed"):
+            for k, why in parts:
+                if k == name:
+                    return k, why
+        names = {k for k, _ in parts}
+        if len(names) == 1:
+            return parts[0]
+        return "mixed", f"values of different kinds {sorted(names)}"
+
+    @staticmethod
+    def _either(parts: list[tuple[str, str]]) -> tuple[str, str]:
+        """ONE of these values is used, the rule does not know which (a record flattened, an unknown index)."""
+        if not parts:
+            return PRINTED, ""
+        for k, why in parts:
+            if k == UNKNOWN:
+                return k, why
+        names = {k for k, _ in parts}
+        if len(names) == 1:
+            return parts[0]
+        return "mixed", next((w for k, w in parts if k in {RAW, "badtext", "mixed"}), "")
+
+    @classmethod
+    def _flat(cls, k) -> tuple[str, str]:
+        """A collection handed on as a whole (the rule loses track of its components)."""
+        if k[0] == "tuple":
+            return cls._either([cls._flat(x) for x in k[1]])
+        if k[0] == "seq":
+            return cls._flat(k[1])
+        if k[0] == "dict":
+            return cls._either([cls._flat(k[1]), cls._flat(k[2])])
+        return k
+
+    @classmethod
+    def _elem(cls, k):
+        """What iterating over the value yields (every element is visited)."""
+        if k[0] == "tuple":
+            return cls._merge(list(k[1])) if k[1] else (PRINTED, "")
+        if k[0] == "seq":
+            return k[1]
+        if k[0] == "dict":
+            return k[1]
+        return k  # the elements of SymPy data are SymPy data, the characters of a string are strings
+
+    @classmethod
+    def _merge(cls, kinds: list):
+        """Kinds of the elements of ONE collection / of the alternatives that reach one use: component-wise where
+        they all have the same shape, otherwise `_some` of the flattened values."""
+        if not kinds:
+            return PRINTED, ""
+        first = kinds[0]
+        if all(k[0] == "tuple" and first[0] == "tuple" and len(k[1]) == len(first[1]) for k in kinds):
+            return "tuple", [cls._merge([k[1][i] for k in kinds]) for i in range(len(first[1]))]
+        if all(k[0] == "seq" for k in kinds):
+            return "seq", cls._merge([k[1] for k in kinds])
+        if all(k[0] == "dict" for k in kinds):
+            return "dict", cls._merge([k[1] for k in kinds]), cls._merge([k[2] for k in kinds])
+        return cls._some([cls._flat(k) for k in kinds])
+
+    @classmethod
+    def _alt(cls, kinds: list):
+        """Alternatives: several definitions reach a use / several returns / both arms of a conditional."""
+        if not kinds:
+            return UNKNOWN, "no value"
+        return cls._merge(kinds)
+
+    @classmethod
+    def _code(cls, k) -> tuple[str, str]:
+        """A value written into the string of generated code (a collection: all of it, e.g. f"{row}")."""
+        if k[0] == "tuple":
+            k = cls._merge(list(k[1])) if k[1] else (PRINTED, "")
+        k, why = cls._flat(k)
+        if k in {PRINTED, RAW, UNKNOWN}:
+            return k, why
+        if k == "badtext":
+            return RAW, why
+        if k in {"self", "class"}:
+            return RAW, why or "the expression object itself is written into the code without printer._print"
+        if k == "mixed":
+            return UNKNOWN, "one of several values, printed and unprinted, is written into the code (the rule cannot tell which)" + (f": {why}" if why else "")
+        return UNKNOWN, why or "a callable / the printer object is written into the code"
+
+    @classmethod
+    def _parts(cls, parts: list) -> tuple[str, str]:
+        """Pieces of ONE string: with one unprinted piece the string carries text that is not NumPy code."""
+        coded = [cls._code(p) for p in parts]
+        for k, why in coded:
+            if k == RAW:
+                return "badtext", why
+        for k, why in coded:
+            if k == UNKNOWN:
+                return k, why
+        return PRINTED, ""
+
+    @classmethod
+    def _component(cls, k, index: int):
+        """The index-th target of an unpacking of the value."""
+        if k[0] == "tuple":
+            return k[1][index] if index < len(k[1]) else cls._merge(list(k[1]))
+        return cls._elem(k)
+
+    @classmethod
+    def _sig(cls, k):
+        if k[0] == "tuple":
+            return ("tuple", tuple(cls._sig(x) for x in k[1]))
+        if k[0] == "seq":
+            return ("seq", cls._sig(k[1]))
+        if k[0] == "dict":
+            return ("dict", cls._sig(k[1]), cls._sig(k[2]))
+        return k[0]
+
+    # ------------------------------------------------------------------ scopes
+    def _rd(self, fn: FuncInfo):
+        from ..dataflow import RD as _RD
+
+        if fn.qual not in self._rds:
+            if fn.outer is not None:
+                outer = self._rd(fn.outer)
+                self._rds[fn.qual] = outer.children.get(id(fn.node)) or _RD(fn.node)
+            else:
+                self._rds[fn.qual] = _RD(fn.node)
+        return self._rds[fn.qual]
+
+    def judge(self) -> tuple[str, str]:
+        """The kind of the string(s) the printer method returns."""
+        params = self.fn.params
+        binding = {}
+        if params:
+            binding[params[0]] = ("self", "")
+        if len(params) > 1:
+            binding[params[1]] = ("printer", "")
+        self._bindings_of[self.fn.qual] = binding
+        return self._code(self._returns(self.fn, binding, 0))
+
+    def _returns(self, fn: FuncInfo, binding: dict, depth: int):
+        scope = (fn, binding, self._rd(fn))
+        returned, yielded = [], []
+        for node in walk_function(fn.node, nested=False):
+            if isinstance(node, ast.Return) and node.value is not None:
+                returned.append(self.kind(node.value, scope, depth + 1))
+            elif isinstance(node, ast.Yield) and node.value is not None:
+                yielded.append(self.kind(node.value, scope, depth + 1))
+            elif isinstance(node, ast.YieldFrom):
+                yielded.append(self._elem(self.kind(node.value, scope, depth + 1)))
+        self.count += len(returned) + len(yielded)
+        if yielded:
+            return "seq", self._merge(yielded)
+        if not returned:
+            return UNKNOWN, f"{fn.qual} returns nothing"
+        return self._alt(returned)
+
+    # ------------------------------------------------------------------ expressions
+    def kind(self, node: ast.AST, scope, depth: int = 0):  # noqa: C901, PLR0911, PLR0912
+        fn, binding, rd = scope
+        if depth > 60:
+            return UNKNOWN, "expression too deep"
+        if isinstance(node, ast.Constant):
+            return PRINTED, ""
+        if isinstance(node, ast.JoinedStr):
+            parts = []
+            for v in node.values:
+                if isinstance(v, ast.FormattedValue):
+                    self.count += 1
+                    parts.append(self.kind(v.value, scope, depth + 1))
+            return self._parts(parts)
+        if isinstance(node, ast.FormattedValue):
+            return self._code(self.kind(node.value, scope, depth + 1))
+        if isinstance(node, ast.Name):
+            return self._name(node, scope, depth)
+        if isinstance(node, ast.Attribute):
+            return self._attribute(node, scope, depth)
+        if isinstance(node, ast.Call):
+            return self._call(node, scope, depth)
+        if isinstance(node, ast.BinOp):
+            left, right = self.kind(node.left, scope, depth + 1), self.kind(node.right, scope, depth + 1)
+            if isinstance(node.op, ast.Mod) and self._flat(left)[0] == PRINTED and not self._struct(left):
+                operands = right[1] if right[0] == "tuple" else [right[2]] if right[0] == "dict" else [right]  # % mapping: its values are written
+                self.count += len(operands)
+                return self._parts([left, *operands])
+            if self._struct(left) or self._struct(right):
+                if isinstance(node.op, ast.Mult):  # [zeros] * 4
+                    return left if self._struct(left) else right
+                return "seq", self._merge([self._elem(left), self._elem(right)])  # concatenation of lists / tuples
+            return self._parts([left, right])
+        if isinstance(node, ast.UnaryOp):
+            return self.kind(node.operand, scope, depth + 1)
+        if isinstance(node, ast.Compare):
+            return PRINTED, ""
+        if isinstance(node, ast.IfExp):
+            return self._alt([self.kind(x, scope, depth + 1) for x in (node.body, node.orelse)])
+        if isinstance(node, ast.BoolOp):
+            return self._alt([self.kind(x, scope, depth + 1) for x in node.values])
+        if isinstance(node, ast.NamedExpr):
+            return self.kind(node.value, scope, depth + 1)
+        if isinstance(node, (ast.ListComp, ast.GeneratorExp, ast.SetComp)):
+            return "seq", self.kind(node.elt, scope, depth + 1)
+        if isinstance(node, ast.DictComp):
+            return "dict", self.kind(node.key, scope, depth + 1), self.kind(node.value, scope, depth + 1)
+        if isinstance(node, (ast.Tuple, ast.List, ast.Set)):
+            if isinstance(node, ast.Set) or any(isinstance(e, ast.Starred) for e in node.elts):
+                elems = [self._elem(self.kind(e.value, scope, depth + 1)) if isinstance(e, ast.Starred) else self.kind(e, scope, depth + 1) for e in node.elts]
+                return "seq", self._merge(elems)
+            return "tuple", [self.kind(e, scope, depth + 1) for e in node.elts]
+        if isinstance(node, ast.Dict):
+            keys, values = [], []
+            for k, v in zip(node.keys, node.values):
+                vk = self.kind(v, scope, depth + 1)
+                if k is None:  # {**other}
+                    keys.append(vk[1] if vk[0] == "dict" else self._elem(vk))
+                    values.append(vk[2] if vk[0] == "dict" else self._elem(vk))
+                else:
+                    keys.append(self.kind(k, scope, depth + 1))
+                    values.append(vk)
+            return "dict", self._merge(keys), self._merge(values)
+        if isinstance(node, ast.Subscript):
+            base = self.kind(node.value, scope, depth + 1)
+            if base[0] == "tuple":
+                idx = node.slice
+                if isinstance(idx, ast.UnaryOp) and isinstance(idx.op, ast.USub) and isinstance(idx.operand, ast.Constant) and isinstance(idx.operand.value, int):
+                    idx = ast.Constant(value=-idx.operand.value)
+                if isinstance(idx, ast.Constant) and isinstance(idx.value, int) and -len(base[1]) <= idx.value < len(base[1]):
+                    return base[1][idx.value]
+                if isinstance(idx, ast.Slice):
+                    return "seq", self._elem(base)
+                return self._elem(base)
+            if base[0] == "seq":
+                return base if isinstance(node.slice, ast.Slice) else base[1]
+            if base[0] == "dict":
+                return base[2]
+            return base  # an item / slice of SymPy data is SymPy data, of a string a string
+        if isinstance(node, (ast.Starred, ast.Await)):
+            return self.kind(node.value, scope, depth + 1)
+        if isinstance(node, ast.Lambda):
+            return "callable", ""
+        return UNKNOWN, f"construct {type(node).__name__} `{unparse(node)[:50]}` is outside the rule's grammar"
+
+    def _name(self, node: ast.Name, scope, depth: int):
+        fn, binding, rd = scope
+        if id(node) in self._lambda_bind:
+            return self._lambda_bind[id(node)]
+        defs = rd.reaching(node) if isinstance(node.ctx, ast.Load) else set()
+        if not defs:
+            return self._free_name(node, scope)
+        return self._alt([self._def(d, scope, depth + 1) for d in sorted(defs, key=lambda d: (d.lineno, d.name, d.kind))])
+
+    def _free_name(self, node: ast.Name, scope):
+        fn, binding, rd = scope
+        # a name of an enclosing function (class factory): its parameter is data nobody printed
+        from ..loader import ancestors
+
+        for anc in ancestors(fn.node):
+            if isinstance(anc, (ast.FunctionDef, ast.AsyncFunctionDef)):
+                a = anc.args
+                if node.id in {x.arg for x in [*a.posonlyargs, *a.args, *a.kwonlyargs, a.vararg, a.kwarg] if x is not None}:
+                    return RAW, f"parameter '{node.id}' of the enclosing function {anc.name} is written into the code without printer._print"
+                if any(isinstance(n, ast.Name) and n.id == node.id and isinstance(n.ctx, ast.Store) for n in ast.walk(anc)):
+                    return UNKNOWN, f"'{node.id}' is a local of the enclosing function {anc.name}"
+        top = fn.module.toplevel.get(node.id)
+        if isinstance(top, (ast.Assign, ast.AnnAssign)) and top.value is not None:
+            if isinstance(top.value, (ast.Constant, ast.JoinedStr, ast.Tuple, ast.List, ast.Dict, ast.BinOp)):
+                return self.kind(top.value, (fn, {}, rd), 50)
+            return UNKNOWN, f"module-level '{node.id}' is not a literal"
+        if isinstance(top, (ast.FunctionDef, ast.ClassDef)):
+            return "callable", ""
+        target = self.tree.resolve(fn.module, node, fn)
+        if target and (target in self.tree.funcs or target in self.tree.classes):
+            return "callable", ""
+        if target and target.split(".")[0] == "string":
+            return PRINTED, ""
+        return UNKNOWN, f"no definition reaches '{node.id}'"
+
+    def _def(self, d, scope, depth: int):  # noqa: C901, PLR0912
+        fn, binding, rd = scope
+        key = (fn.qual, id(d), tuple(sorted((k, repr(self._sig(v))) for k, v in binding.items())))
+        if key in self._memo:
+            return self._memo[key]
+        self._memo[key] = (PRINTED, "")  # a loop's back edge is optimistic
+        previous = [dep for dep in d.deps if dep.name == d.name and dep is not d]
+        if d.kind == "param":
+            if d.name in binding:
+                res = binding[d.name]
+            else:
+                default = self._default_of(fn, d.name)
+                if default is not None:
+                    res = self.kind(default, (fn, {}, rd), depth + 1)
+                elif fn.node.args.vararg is not None and fn.node.args.vararg.arg == d.name:
+                    res = ("tuple", []) if fn is not self.fn else (UNKNOWN, f"the extra positional arguments *{d.name} are written into the code")
+                elif fn.node.args.kwarg is not None and fn.node.args.kwarg.arg == d.name:
+                    res = ("dict", (PRINTED, ""), (PRINTED, "")) if fn is not self.fn else (UNKNOWN, f"the extra keyword arguments **{d.name} are written into the code")
+                else:
+                    res = (RAW, f"parameter '{d.name}' is written into the code without printer._print")
+        elif d.kind == "lambda":
+            res = self._lambda_bind.get(id(d.node), (UNKNOWN, f"parameter '{d.name}' of a lambda"))
+        elif d.kind == "store" and isinstance(d.value, ast.Call) and isinstance(d.value.func, ast.Attribute):
+            # x.append(v) / x.extend(vs) / x.update(...): what goes in, plus what was there
+            call = d.value
+            old = [self._def(dep, scope, depth + 1) for dep in previous]
+            attr = call.func.attr
+            args = [self.kind(a, scope, depth + 1) for a in call.args]
+            if not (isinstance(call.func.value, ast.Name) and call.func.value.id == d.name):
+                # `printer.module_imports[m].add("array")`: a part of the object is updated, the name still holds the object
+                res = self._alt(old) if old else (UNKNOWN, f"`{unparse(call)[:40]}` on an unknown object")
+            elif attr in {"append", "add", "appendleft"} and args:
+                res = ("seq", self._merge([*[self._elem(o) for o in old], args[-1]]))
+            elif attr == "insert" and len(args) == 2:
+                res = ("seq", self._merge([*[self._elem(o) for o in old], args[1]]))
+            elif attr in {"extend", "update"} and args and not all(o[0] == "dict" for o in old):
+                res = ("seq", self._merge([*[self._elem(o) for o in old], *[self._elem(a) for a in args]]))
+            elif attr == "update" and old:
+                extra = [a for a in args if a[0] == "dict"]
+                kws = [self.kind(k.value, scope, depth + 1) for k in call.keywords if k.arg]
+                res = ("dict", self._merge([*[o[1] for o in old], *[e[1] for e in extra]]), self._merge([*[o[2] for o in old], *[e[2] for e in extra], *kws]))
+                if len(extra) != len(args):
+                    res = (UNKNOWN, f"`{unparse(call)[:50]}`: update with a value that is not a dict")
+            elif attr == "setdefault" and len(args) == 2 and old and all(o[0] == "dict" for o in old):
+                res = ("dict", self._merge([*[o[1] for o in old], args[0]]), self._merge([*[o[2] for o in old], args[1]]))
+            elif attr in {"pop", "popitem", "remove", "discard", "clear", "sort", "reverse"}:
+                res = self._alt(old) if old else (UNKNOWN, f"`{unparse(call)[:40]}` on an unknown container")
+            else:
+                res = (UNKNOWN, f"container update `{unparse(call)[:50]}` is outside the rule's grammar")
+        elif d.kind == "store" and d.value is not None:
+            # x[k] = v
+            old = [self._def(dep, scope, depth + 1) for dep in previous]
+            new = self.kind(d.value, scope, depth + 1)
+            target = next((t for t in getattr(d.node, "targets", []) if isinstance(t, ast.Subscript) and isinstance(t.value, ast.Name) and t.value.id == d.name), None)
+            if target is None:
+                res = self._alt(old) if old else (UNKNOWN, f"store into a part of '{d.name}'")  # x.attr = v / x[k].y = v: the name still holds the object
+            elif old and all(o[0] == "dict" for o in old):
+                res = ("dict", self._merge([*[o[1] for o in old], self.kind(target.slice, scope, depth + 1)]), self._merge([*[o[2] for o in old], new]))
+            else:
+                res = ("seq", self._merge([*[self._elem(o) for o in old], new]))
+        elif d.kind in {"assign", "with", "aug"} and d.value is not None:
+            res = self.kind(d.value, scope, depth + 1)
+            if d.index is not None:
+                res = self._component(res, d.index)
+            if d.kind == "aug":
+                old = [self._def(dep, scope, depth + 1) for dep in previous]
+                if self._struct(res) or any(self._struct(o) for o in old):
+                    res = ("seq", self._merge([self._elem(res), *[self._elem(o) for o in old]]))
+                else:
+                    res = self._parts([res, *old])
+        elif d.kind in {"comp", "for"} and d.value is not None:
+            res = self._elem(self.kind(d.value, scope, depth + 1))
+            if d.index is not None:
+                res = self._component(res, d.index)
+        elif d.kind == "def":
+            res = ("callable", "")
+        else:
+            res = (UNKNOWN, f"definition of '{d.name}' ({d.kind}) is outside the rule's grammar")
+        self._memo[key] = res
+        return res
+
+    @staticmethod
+    def _default_of(fn: FuncInfo, name: str):
+        a = fn.node.args
+        pos = [*a.posonlyargs, *a.args]
+        for p_, dflt in zip(pos[len(pos) - len(a.defaults):], a.defaults):
+            if p_.arg == name:
+                return dflt
+        for p_, dflt in zip(a.kwonlyargs, a.kw_defaults):
+            if p_.arg == name and dflt is not None:
+                return dflt
+        return None
+
+    def _attribute(self, node: ast.Attribute, scope, depth: int):  # noqa: C901, PLR0911
+        fn, binding, rd = scope
+        if node.attr in {"__name__", "__qualname__"}:
+            return PRINTED, ""
+        base = self._flat(self.kind(node.value, scope, depth + 1))
+        if base[0] == "printer":
+            if node.attr.startswith("_print") or node.attr in _PRINT_ATTRS:
+                return "printfn", ""
+            return UNKNOWN, f"printer attribute `{unparse(node)}`"
+        if base[0] == "self":
+            cls = self.receiver
+            if cls is not None:
+                if self._literals is None:
+                    self._literals = set()
+                    for c in self.tree.mro(cls):
+                        for st in c.node.body:
+                            target = st.targets[0] if isinstance(st, ast.Assign) and len(st.targets) == 1 else st.target if isinstance(st, ast.AnnAssign) else None
+                            if isinstance(target, ast.Name) and isinstance(getattr(st, "value", None), ast.Constant):
+                                self._literals.add(target.id)
+                if node.attr in self._literals:
+                    return PRINTED, ""
+                method = self.tree.lookup_method(cls, node.attr)
+                if method is not None:
+                    if any(unparse(dec) in {"property", "functools.cached_property", "cached_property"} for dec in method.node.decorator_list):
+                        return self._enter(method, {method.params[0]: ("self", "")} if method.params else {}, depth)
+                    return "callable", ""
+                ecls = self.classes.get(cls.qual)
+                if ecls is not None:
+                    for f in ecls.fields:
+                        if f.name == node.attr:
+                            if f.sympify:
+                                return RAW, f"field '{unparse(node)}' is written into the code without printer._print"
+                            if f.annotation.replace("typing.", "") in _PLAIN_ANNOTATIONS:
+                                return PRINTED, ""
+                            return UNKNOWN, f"non-SymPy field '{unparse(node)}' of type {f.annotation}"
+            if node.attr in _SYMPY_DATA_ATTRS:
+                return RAW, f"'{unparse(node)}' is written into the code without printer._print"
+            return UNKNOWN, f"attribute '{unparse(node)}' is neither a field, a class-level literal nor a method"
+        if base[0] == RAW:
+            return RAW, base[1]  # an attribute of a SymPy object (x.args, x.func ...) is SymPy data
+        if base[0] == "class":
+            return UNKNOWN, f"class attribute `{unparse(node)}`"
+        target = self.tree.resolve(fn.module, node, fn)
+        if target:
+            if target in self.tree.funcs or target in self.tree.classes:
+                return "callable", ""
+            if target.split(".")[0] == "string":
+                return PRINTED, ""  # string.ascii_lowercase ...
+            if target.startswith("sympy.") and target.split(".")[-1] in {"I", "pi", "oo", "E", "nan", "zoo"}:
+                return RAW, f"the SymPy constant `{unparse(node)}` is written into the code without printer._print"
+        if base[0] == PRINTED:
+            return UNKNOWN, f"attribute `{unparse(node)}` of a string / number"
+        return UNKNOWN, base[1] or f"attribute `{unparse(node)}`"
+
+    # ------------------------------------------------------------------ calls
+    def _call(self, node: ast.Call, scope, depth: int):  # noqa: C901, PLR0911, PLR0912
+        fn, binding, rd = scope
+        f = node.func
+        operands = [*node.args, *[k.value for k in node.keywords]]
+        kind = lambda x: self.kind(x, scope, depth + 1)  # noqa: E731
+        if isinstance(f, ast.Name) and not rd.reaching(f) and f.id not in fn.module.toplevel and self.tree.resolve(fn.module, f, fn) is None:
+            return self._builtin(f.id, node, scope, depth)
+        fk = self._flat(kind(f)) if isinstance(f, (ast.Attribute, ast.Name)) else (UNKNOWN, "")
+        if fk[0] == "printfn":
+            return PRINTED, ""
+        if isinstance(f, ast.Attribute):
+            recv = kind(f.value)
+            flat = self._flat(recv)
+            if recv[0] == "dict":
+                if f.attr == "items":
+                    return "seq", ("tuple", [recv[1], recv[2]])
+                if f.attr == "keys":
+                    return "seq", recv[1]
+                if f.attr == "values":
+                    return "seq", recv[2]
+                if f.attr in {"get", "pop", "setdefault"} and node.args:
+                    return self._alt([recv[2], *[kind(a) for a in node.args[1:]]])
+                if f.attr == "copy":
+                    return recv
+            if recv[0] in {"seq", "tuple"}:
+                if f.attr == "copy":
+                    return recv
+                if f.attr in {"index", "count"}:
+                    return PRINTED, ""
+                if f.attr == "pop":
+                    return self._elem(recv)
+            if flat[0] == "badtext" and not self._struct(recv) and (f.attr in _STR_METHODS or f.attr in {"format", "format_map"}):
+                return flat  # a method of a string that already carries unprinted text
+            if flat[0] == PRINTED and not self._struct(recv):
+                if f.attr == "join" and len(node.args) == 1:
+                    return self._parts([recv, self._elem(kind(node.args[0]))])
+                if f.attr in {"format", "format_map"}:
+                    self.count += len(operands)
+                    written = [kind(a) for a in node.args]
+                    for kw in node.keywords:
+                        k = kind(kw.value)
+                        written.append(k[2] if kw.arg is None and k[0] == "dict" else k)  # **mapping: its values are written
+                    if f.attr == "format_map" and written and written[0][0] == "dict":
+                        written[0] = written[0][2]
+                    return self._parts([recv, *written])
+                if f.attr in {"split", "rsplit", "splitlines", "partition", "rpartition"}:
+                    return "seq", recv
+                if f.attr in _STR_METHODS:
+                    return self._parts([recv, *[kind(a) for a in operands]])
+                if f.attr in {"count", "index", "find", "rfind", "startswith", "endswith", "isdigit", "isalpha", "isidentifier"}:
+                    return PRINTED, ""
+            if flat[0] == RAW:
+                return RAW, flat[1]  # a method of a SymPy object called on unprinted data gives unprinted data (or its str())
+            if flat[0] == "self" and f.attr in _SYMPY_OBJECT_METHODS and self.tree.lookup_method(self.receiver, f.attr) is None:
+                return RAW, f"`{unparse(node)[:50]}` is a SymPy object that did not pass the printer"
+        # a function / method / class of the package
+        target = self.tree.resolve(fn.module, f, fn)
+        if isinstance(f, ast.Attribute) and self.receiver is not None and self._flat(kind(f.value))[0] == "self":
+            dyn = self.tree.lookup_method(self.receiver, f.attr)
+            target = dyn.qual if dyn is not None else target
+        if target in self.tree.classes:
+            if any(b.startswith("sympy.") for c in self.tree.mro(self.tree.classes[target]) for b in self.tree.external_bases(c)) or target in self.classes:
+                return RAW, f"`{unparse(node)[:50]}` builds a SymPy object that did not pass the printer"
+            return UNKNOWN, f"instance of {target}"
+        if target in self.tree.funcs:
+            callee = self.tree.funcs[target]
+            return self._enter(callee, self._bind(callee, node, scope, depth), depth)
+        if target and target.startswith("sympy."):
+            last = target.split(".")[-1]
+            if last[:1].isupper() or last in {"sqrt", "cos", "sin", "tan", "exp", "log", "atan", "atan2", "acos", "asin", "conjugate", "sympify", "symbols", "re", "im", "sign"}:
+                return RAW, f"`{unparse(node)[:50]}` builds a SymPy object that did not pass the printer"
+            return UNKNOWN, f"value of sympy call `{unparse(node)[:50]}`"
+        if target in {"itertools.chain", "itertools.chain.from_iterable"}:
+            if target.endswith("from_iterable") and len(node.args) == 1:
+                return "seq", self._elem(self._elem(kind(node.args[0])))
+            return "seq", self._merge([self._elem(kind(a)) for a in node.args])
+        if target in {"itertools.zip_longest", "itertools.product"}:
+            fill = [kind(k.value) for k in node.keywords if k.arg == "fillvalue"]
+            return "seq", ("tuple", [self._merge([self._elem(kind(a)), *fill]) for a in node.args])
+        if target in {"itertools.islice", "itertools.cycle", "itertools.accumulate"} and node.args:
+            return "seq", self._elem(kind(node.args[0]))
+        if target == "itertools.repeat" and node.args:
+            return "seq", kind(node.args[0])
+        if target == "itertools.pairwise" and node.args:
+            e = self._elem(kind(node.args[0]))
+            return "seq", ("tuple", [e, e])
+        if target in {"textwrap.dedent", "textwrap.indent"} and node.args:
+            return self._parts([kind(a) for a in node.args])
+        if target in {"copy.copy", "copy.deepcopy"} and node.args:
+            return kind(node.args[0])
+        if target in {"functools.partial"} and node.args:
+            first = self._flat(kind(node.args[0]))
+            return first if first[0] == "printfn" and len(node.args) == 1 else ("callable", "")  # partial(printer._print) still prints
+        if isinstance(f, ast.Name) and fk[0] == "callable":
+            # a local lambda held under a name
+            lambdas = [d.value for d in rd.reaching(f) if d.kind == "assign" and isinstance(d.value, ast.Lambda)]
+            if lambdas and len(lambdas) == len(rd.reaching(f)) and not node.keywords and not any(isinstance(a, ast.Starred) for a in node.args):
+                return self._alt([self._lambda(lam, [kind(a) for a in node.args], scope, depth) for lam in lambdas])
+        return UNKNOWN, f"value of call `{unparse(node)[:60]}`: the callee is not known to the rule"
+
+    def _builtin(self, name: str, node: ast.Call, scope, depth: int):  # noqa: C901, PLR0911, PLR0912
+        kind = lambda x: self.kind(x, scope, depth + 1)  # noqa: E731
+        args = node.args
+        if name in _NUMERIC_BUILTINS:
+            return PRINTED, ""
+        if name in {"str", "repr", "format", "ascii"}:
+            # str(x) / repr(x) of a SymPy object is the str printer's text: not NumPy code
+            return self._parts([kind(a) for a in args]) if args else (PRINTED, "")
+        if name in {"list", "tuple"} and len(args) == 1:
+            k = kind(args[0])
+            return k if k[0] in {"tuple", "seq"} else ("seq", self._elem(k))
+        if name in {"sorted", "reversed", "set", "frozenset", "iter"} and args:
+            return "seq", self._elem(kind(args[0]))
+        if name in {"list", "tuple", "set", "frozenset", "dict"} and not args and not node.keywords:
+            return ("dict", (PRINTED, ""), (PRINTED, "")) if name == "dict" else ("tuple", [])
+        if name == "next" and args:
+            return self._alt([self._elem(kind(args[0])), *[kind(a) for a in args[1:]]])
+        if name == "enumerate" and args:
+            return "seq", ("tuple", [(PRINTED, ""), self._elem(kind(args[0]))])
+        if name == "zip":
+            if any(isinstance(a, ast.Starred) for a in args):
+                return "seq", ("seq", self._merge([self._elem(self._elem(kind(a.value))) if isinstance(a, ast.Starred) else self._elem(kind(a)) for a in args]))
+            return "seq", ("tuple", [self._elem(kind(a)) for a in args])
+        if name == "dict":
+            values = [kind(k.value) for k in node.keywords if k.arg]
+            keys = [(PRINTED, "")] if values else []
+            for a in args:
+                k = kind(a)
+                if k[0] == "dict":
+                    keys.append(k[1])
+                    values.append(k[2])
+                else:
+                    pair = self._elem(k)
+                    keys.append(self._component(pair, 0))
+                    values.append(self._component(pair, 1))
+            for kw in node.keywords:
+                if kw.arg is None:
+                    k = kind(kw.value)
+                    keys.append(k[1] if k[0] == "dict" else self._elem(k))
+                    values.append(k[2] if k[0] == "dict" else self._elem(k))
+            return "dict", self._merge(keys), self._merge(values)
+        if name == "map" and len(args) >= 2:
+            return "seq", self._apply(args[0], [self._elem(kind(a)) for a in args[1:]], scope, depth)
+        if name == "filter" and len(args) == 2:
+            return "seq", self._elem(kind(args[1]))
+        if name in {"max", "min"} and args:
+            return self._elem(kind(args[0])) if len(args) == 1 else self._alt([kind(a) for a in args])
+        if name == "sum" and args:
+            return self._merge([self._elem(kind(args[0])), *[kind(a) for a in args[1:]]])
+        if name == "type":
+            return "class", ""
+        if name == "getattr" and len(args) >= 2 and isinstance(args[1], ast.Constant) and isinstance(args[1].value, str):
+            attr = ast.copy_location(ast.Attribute(value=args[0], attr=args[1].value, ctx=ast.Load()), node)
+            got = self._attribute(attr, scope, depth)
+            return got if len(args) == 2 else self._alt([got, kind(args[2])])
+        return UNKNOWN, f"builtin `{name}` is outside the rule's grammar"
+
+    def _bind(self, callee: FuncInfo, call: ast.Call, scope, depth: int) -> dict:
+        """Parameters of a package function -> kinds of the arguments of this call."""
+        a = callee.node.args
+        pos = [x.arg for x in [*a.posonlyargs, *a.args]]
+        out: dict = {}
+        decorators = {unparse(d) for d in callee.node.decorator_list}
+        if callee.cls is not None and callee.outer is None and "staticmethod" not in decorators and pos:
+            recv = self._flat(self.kind(call.func.value, scope, depth + 1)) if isinstance(call.func, ast.Attribute) else ("callable", "")
+            if "classmethod" in decorators:
+                out[pos[0]] = ("class", "")
+                pos = pos[1:]
+            elif recv[0] in {"callable", "class"}:
+                pass  # Class.method(obj, ...): the instance is the first positional argument
+            else:
+                out[pos[0]] = recv
+                pos = pos[1:]
+        extra: list = []
+        i = 0
+        for arg in call.args:
+            if isinstance(arg, ast.Starred):
+                k = self.kind(arg.value, scope, depth + 1)
+                items = list(k[1]) if k[0] == "tuple" else None
+                if items is not None:
+                    for item in items:
+                        if i < len(pos):
+                            out[pos[i]] = item
+                        else:
+                            extra.append(item)
+                        i += 1
+                else:
+                    for name in pos[i:]:
+                        out.setdefault(name, self._elem(k))
+                    extra.append(self._elem(k))
+                    i = len(pos)
+                continue
+            k = self.kind(arg, scope, depth + 1)
+            if i < len(pos):
+                out[pos[i]] = k
+            else:
+                extra.append(k)
+            i += 1
+        if a.vararg is not None:
+            out[a.vararg.arg] = ("tuple", extra) if all(not isinstance(x, ast.Starred) for x in call.args) else ("seq", self._merge(extra))
+        named = {*pos, *[x.arg for x in a.kwonlyargs]}
+        kw_keys, kw_values = [], []
+        for kw in call.keywords:
+            k = self.kind(kw.value, scope, depth + 1)
+            if kw.arg is None:
+                for name in named:
+                    out.setdefault(name, k[2] if k[0] == "dict" else self._elem(k))
+                kw_keys.append(k[1] if k[0] == "dict" else (PRINTED, ""))
+                kw_values.append(k[2] if k[0] == "dict" else self._elem(k))
+            elif kw.arg in named:
+                out[kw.arg] = k
+            else:
+                kw_keys.append((PRINTED, ""))
+                kw_values.append(k)
+        if a.kwarg is not None:
+            out[a.kwarg.arg] = ("dict", self._merge(kw_keys), self._merge(kw_values))
+        return out
+
+    def _enter(self, callee: FuncInfo, binding: dict, depth: int):
+        if callee.qual in self._active:
+            return PRINTED, ""  # recursion: optimistic on the back edge, the other returns decide
+        if len(self._active) > 8:
+            return UNKNOWN, f"helper chain too deep at {callee.qual}"
+        self._active.append(callee.qual)
+        if callee.outer is not None:
+            # a nested function also sees the parameters of the function it is written in (the printer, self ...)
+            binding = {**self._bindings_of.get(callee.outer.qual, {}), **binding}
+        self._bindings_of[callee.qual] = binding
+        try:
+            res = self._returns(callee, binding, depth)
+        finally:
+            self._active.pop()
+        flat = self._flat(res)
+        if flat[0] == UNKNOWN and not self._reads_self(callee) and self._plain_parameters(callee):
+            return PRINTED, ""  # int / str in, no access to the expression: the result cannot contain a SymPy object
+        if not self._struct(res) and res[0] in {RAW, UNKNOWN, "mixed", "badtext"} and res[1] and callee is not self.fn and not res[1].startswith("helper "):
+            return res[0], f"helper {callee.qual}: {res[1]}"
+        return res
+
+    @staticmethod
+    def _reads_self(fn: FuncInfo) -> bool:
+        return fn.cls is not None and not any(unparse(d) == "staticmethod" for d in fn.node.decorator_list)
+
+    @staticmethod
+    def _plain_parameters(fn: FuncInfo) -> bool:
+        a = fn.node.args
+        params = [x for x in [*a.posonlyargs, *a.args, *a.kwonlyargs] if x.arg not in {"self", "cls"}]
+        return bool(params) and a.vararg is None and a.kwarg is None and all(x.annotation is not None and unparse(x.annotation) in {"int", "str", "bool"} for x in params)
+
+    def _lambda(self, func: ast.Lambda, args: list, scope, depth: int):
+        a = func.args
+        params = [*a.posonlyargs, *a.args]
+        if len(args) > len(params) or a.vararg or a.kwarg:
+            return UNKNOWN, f"`{unparse(func)[:40]}`: lambda with star parameters"
+        for p_, k in zip(params, args):
+            self._lambda_bind[id(p_)] = k
+        self._memo = {k: v for k, v in self._memo.items() if k[0] != scope[0].qual}  # the body is re-read for these arguments
+        return self.kind(func.body, scope, depth + 1)
+
+    def _apply(self, func: ast.AST, elems: list, scope, depth: int):
+        """``map(f, seq...)``: f applied to one element of each sequence."""
+        fn, binding, rd = scope
+        if isinstance(func, ast.Lambda):
+            return self._lambda(func, elems, scope, depth)
+        fk = self._flat(self.kind(func, scope, depth + 1))
+        if fk[0] == "printfn":
+            return PRINTED, ""
+        if isinstance(func, ast.Name) and not rd.reaching(func):
+            if func.id in {"str", "repr"}:
+                return self._parts(elems)
+            if func.id in {"int", "len", "float", "bool"}:
+                return PRINTED, ""
+        if isinstance(func, ast.Name):
+            lambdas = [d.value for d in rd.reaching(func) if d.kind == "assign" and isinstance(d.value, ast.Lambda)]
+            if lambdas and len(lambdas) == len(rd.reaching(func)):
+                return self._alt([self._lambda(lam, elems, scope, depth) for lam in lambdas])
+        target = self.tree.resolve(fn.module, func, fn)
+        if isinstance(func, ast.Attribute) and self.receiver is not None and self._flat(self.kind(func.value, scope, depth + 1))[0] == "self":
+            dyn = self.tree.lookup_method(self.receiver, func.attr)
+            target = dyn.qual if dyn is not None else target
+        if target in self.tree.funcs:
+            callee = self.tree.funcs[target]
+            a = callee.node.args
+            pos = [x.arg for x in [*a.posonlyargs, *a.args]]
+            out = {}
+            if callee.cls is not None and callee.outer is None and pos and isinstance(func, ast.Attribute) and not any(unparse(d) == "staticmethod" for d in callee.node.decorator_list):
+                out[pos[0]] = self._flat(self.kind(func.value, scope, depth + 1))
+                pos = pos[1:]
+            out.update(dict(zip(pos, elems)))
+            return self._enter(callee, out, depth)
+        return UNKNOWN, f"`{unparse(func)[:40]}` mapped over a collection: the function is not known to the rule"
+
+
+def _is_stub(fn: FuncInfo) -> bool:
+    """A method without behaviour of its own: docstring / pass / ... / raise only, or marked abstract."""
+    if any(unparse(d).split(".")[-1] == "abstractmethod" for d in fn.node.decorator_list):
+        return True
+    return all(isinstance(st, (ast.Pass, ast.Raise)) or (isinstance(st, ast.Expr) and isinstance(st.value, ast.Constant)) for st in fn.node.body)
+
+
+def _is_abstract(fn: FuncInfo) -> bool:
+    """Marked @abstractmethod, or nothing but `raise NotImplementedError`: a subclass has to provide it."""
+    if any(unparse(d).split(".")[-1] == "abstractmethod" for d in fn.node.decorator_list):
+        return True
+    body = [st for st in fn.node.body if not (isinstance(st, ast.Expr) and isinstance(st.value, ast.Constant))]
+    return len(body) == 1 and isinstance(body[0], ast.Raise) and body[0].exc is not None and "NotImplementedError" in unparse(body[0].exc)
+
+
+def _receivers(tree: Tree, fn: FuncInfo) -> list:
+    """The concrete classes whose instances run this printer method (the defining class and the subclasses that
+    inherit it); classes that still have an abstract method are never instantiated."""
+    out = []
+    for c in [fn.cls, *tree.subclasses(fn.cls)]:
+        if tree.lookup_method(c, fn.name) is not fn:
+            continue
+        names = {name for k in tree.mro(c) for name in k.methods}
+        if any(_is_abstract(tree.lookup_method(c, name)) for name in names):
+            continue
+        out.append(c)
+    return out or [fn.cls]
+
 
 def check_printers(ctx: Check, tree: Tree) -> None:
     methods = printer_methods(tree)
     ctx.stats["printer_methods"] = len(methods)
     if len(methods) < 14:
         raise AnalysisError(f"only {len(methods)} printer methods found (18 confirmed)")
+    classes = expression_classes(tree)
     n_interp = 0
+    undecided = []
     for fn in sorted(methods, key=lambda f: f.qual):
-        if not fn.node.body or all(isinstance(s, ast.Expr) and isinstance(s.value, ast.Constant) for s in fn.node.body):
+        if not fn.node.body or _is_stub(fn):
             continue  # abstract stub
-        taint = PrintTaint(tree, fn, class_literal_attrs(tree, fn), string_only_methods(tree, fn))
-        bad = []
-        count = 0
-        for container, expr in taint.interpolations():
-            count += 1
-            ok, why = taint.classify(expr)
-            if not ok:
-                bad.append((expr, why))
-        # a printer may also return something that is not an f-string: it must be printed too
-        for node in walk_function(fn.node, nested=False):
-            if isinstance(node, ast.Return) and node.value is not None and not isinstance(node.value, (ast.JoinedStr, ast.Constant)):
-                count += 1
-                ok, why = taint.classify(node.value)
-                if not ok:
-                    bad.append((node.value, why))
-        n_interp += count
+        verdicts = []
+        flow = None
+        for receiver in _receivers(tree, fn):
+            flow = PrintFlow(tree, fn, classes, receiver)
+            verdicts.append(flow.judge())
+            n_interp += flow.count
+        verdict, why = PrintFlow._alt(verdicts)
         key = f"{fn.qual}::raw-interpolation"
-        if bad:
-            names = ", ".join(sorted({unparse(e)[:30] for e, _ in bad}))
-            ctx.violation("R-PRINT", key, tree.loc(bad[0][0]),
-                          f"{fn.qual} interpolates {len(bad)} value(s) into generated code without printer._print: {names}",
-                          {"reason": bad[0][1], "consequence": "the str printer's output is not NumPy code: lambdify(..., cse=False) fails (NameError) or silently prints a different expression"})
+        if verdict == RAW:
+            ctx.violation("R-PRINT", key, tree.loc(fn.node),
+                          f"{fn.qual} writes a value into generated code without printer._print: {why}",
+                          {"reason": why, "consequence": "the str printer's output is not NumPy code: lambdify(..., cse=False) fails (NameError) or silently prints a different expression"})
+        elif verdict == PRINTED:
+            ctx.ok("R-PRINT", tree.loc(fn.node), f"{fn.qual}: {flow.count} interpolated/returned value(s) all pass the printer")
         else:
-            ctx.ok("R-PRINT", tree.loc(fn.node), f"{fn.qual}: {count} interpolated/returned value(s) all pass the printer")
+            undecided.append(f"{fn.qual}: {why}")
     ctx.stats["interpolations"] = n_interp
+    if undecided:
+        raise AnalysisError("R-PRINT cannot decide whether every value written into the generated code passed the printer: " + "; ".join(undecided)[:600])
 
 
-# --------------------------------------------------------------------------- template parsing
+# --------------------------------------------------------------------------- generated code, read as what it builds
 
 
-def template_matrix(fn: FuncInfo) -> tuple[list[list[list]], str]:
-    """Parse the f-string returned by a ``_numpycode`` into a 4x4 layout.
+class CodeEval(TermEval):
+    """TermEval that can also run a printer method (``_numpycode``): the result is the TEXT of the generated code.
 
-    Every entry is a list of (sign, placeholder-name).  Returns (layout, trailing text)."""
-    ret = [n for n in walk_function(fn.node, nested=False) if isinstance(n, ast.Return)]
-    if len(ret) != 1 or not isinstance(ret[0].value, ast.JoinedStr):
-        raise ExtractionError(f"{fn.qual}: return value is not a single f-string template")
-    parts = []
-    for v in ret[0].value.values:
-        if isinstance(v, ast.Constant):
-            parts.append(str(v.value))
-        else:
-            if not isinstance(v.value, ast.Name):
-                raise ExtractionError(f"{fn.qual}: placeholder `{unparse(v.value)}` is not a plain name")
-            parts.append(f"\x00{v.value.id}\x00")
-    text = "".join(parts)
-    m = re.match(r"\s*array\(\s*\[(.*)\]\s*\)(.*)$", text, re.S)
-    if not m:
-        raise ExtractionError(f"{fn.qual}: template is not `array([...])...`")
-    body, tail = m.group(1), m.group(2)
-    rows = re.findall(r"\[([^\[\]]*)\]", body)
-    layout = []
-    for r in rows:
-        entries = []
-        for cell in r.split(","):
-            cell = cell.strip()
-            if not cell:
-                continue
-            mm = re.fullmatch(r"(-?)\s*\x00(\w+)\x00", cell)
-            if not mm:
-                raise ExtractionError(f"{fn.qual}: template cell `{cell}` is not [-]{{name}}")
-            entries.append((-1 if mm.group(1) else 1, mm.group(2)))
-        layout.append(entries)
-    return layout, tail.strip()
+    ``printer._print(v)`` (also ``doprint`` / ``parenthesize`` / ``_print_X``, directly, through ``map`` or held in
+    a local) yields a token that stands for "the code of value v"; everything else is ordinary string building that
+    TermEval folds (f-strings, ``+``, ``%``, ``.format``, ``join``, comprehensions, helpers that receive the printer
+    or the already printed pieces).  Bookkeeping on the printer (``printer.module_imports[...].add(...)``) contributes
+    nothing.  The text is then PARSED (``parse_code``), so the rules read the expression the code denotes and not the
+    way the string was put together."""
+
+    PRINTER = Opaque(("printer",))
+
+    def __init__(self, tree: Tree, inline_depth: int = 6) -> None:
+        super().__init__(tree, inline_depth)
+        self.tokens: list = []
+
+    def token(self, value) -> Opaque:
+        self.tokens.append(value)
+        return Opaque(f"\x00{len(self.tokens) - 1}\x00")
+
+    def _is_print_fn(self, v) -> bool:
+        return (isinstance(v, Opaque) and isinstance(v.key, tuple) and len(v.key) == 3 and v.key[0] == "attr" and v.key[1] == self.PRINTER.key
+                and isinstance(v.key[2], str) and (v.key[2].startswith("_print") or v.key[2] in {"doprint", "parenthesize"}))
+
+    def _printed(self, args: list):
+        if not args:
+            raise ExtractionError("printer call without an argument")
+        return self.token(args[0])
+
+    def _ev_Call(self, node, env, fn, depth):
+        f = node.func
+        head = f
+        while isinstance(head, ast.Attribute):
+            head = head.value
+        if isinstance(head, ast.Name) and (env.get(head.id) == self.PRINTER or (isinstance(f, ast.Name) and self._is_print_fn(env.get(f.id)))):
+            try:
+                fval = self.ev(f, env, fn, depth)
+            except ExtractionError:
+                fval = None
+            if self._is_print_fn(fval):
+                args, _ = self._args(node, env, fn, depth)
+                return self._printed(args)
+        if fn is not None and len(node.args) >= 1 and self.tree.resolve(fn.module, f, fn) in {"textwrap.dedent", "textwrap.indent", "inspect.cleandoc"}:
+            return self.ev(node.args[0], env, fn, depth)  # layout only: the text is parsed as code afterwards
+        return super()._ev_Call(node, env, fn, depth)
+
+    def apply(self, fval, args, kwargs, env, fn, depth):
+        if self._is_print_fn(fval):
+            return self._printed(args)
+        return super().apply(fval, args, kwargs, env, fn, depth)
+
+    def eval_body(self, body, env, fn, depth=0):
+        def bookkeeping(st) -> bool:
+            if not (isinstance(st, ast.Expr) and isinstance(st.value, ast.Call)):
+                return False
+            base = st.value.func
+            while isinstance(base, (ast.Attribute, ast.Subscript, ast.Call)):
+                base = base.value if not isinstance(base, ast.Call) else base.func
+            return isinstance(base, ast.Name) and env.get(base.id) == self.PRINTER
+
+        return super().eval_body([st for st in body if not bookkeeping(st)], env, fn, depth)
+
+    def run_printer(self, fn: FuncInfo, self_struct: dict) -> str:
+        """The text that the printer method ``fn`` returns for the abstract instance ``self_struct``."""
+        out = self.eval_body_of_printer(fn, self_struct)
+        if not (isinstance(out, Opaque) and isinstance(out.key, str)):
+            raise ExtractionError(f"{fn.qual}: does not return a string built from literals and printed values")
+        return out.key
+
+    def eval_body_of_printer(self, fn: FuncInfo, self_struct: dict):
+        """The value the printer method returns (with ``fork``: a PW of the values of its paths)."""
+        a = fn.node.args
+        params = [x.arg for x in [*a.posonlyargs, *a.args]]
+        if len(params) < 2:
+            raise ExtractionError(f"{fn.qual}: no printer parameter")
+        self_struct = dict(self_struct)
+        klass = self_struct.get("__class__")
+        owner = self.tree.classes.get(klass.key[1]) if isinstance(klass, Opaque) and isinstance(klass.key, tuple) and klass.key[0] == "ref" else fn.cls
+        if owner is not None:
+            self_struct.setdefault("__class__", Opaque(("ref", owner.qual)))
+            for c in reversed(self.tree.mro(owner)):  # class-level literal attributes (templates, names, tolerances)
+                for st in c.node.body:
+                    target = st.targets[0] if isinstance(st, ast.Assign) and len(st.targets) == 1 else st.target if isinstance(st, ast.AnnAssign) else None
+                    if isinstance(target, ast.Name) and isinstance(getattr(st, "value", None), ast.Constant) and target.id not in self_struct:
+                        try:
+                            self_struct[target.id] = self._ev_Constant(st.value, {}, fn, 0)
+                        except ExtractionError:
+                            pass
+        env: dict = {params[0]: self_struct, params[1]: self.PRINTER}
+        for extra in params[2:]:
+            env[extra] = Opaque(("extra-printer-argument", extra))
+        if a.vararg is not None:
+            env[a.vararg.arg] = Tup([])
+        if a.kwarg is not None:
+            from ..terms import DictV
+
+            env[a.kwarg.arg] = DictV([])
+        return self.eval_body(fn.node.body, env, fn, 0)
 
 
-def placeholder_fields(fn: FuncInfo, cls) -> dict[str, str]:
-    """local placeholder name -> field name of the implementation class (by position in
-    the ``... = map(printer._print, self.args)`` unpacking)."""
-    from ..rules import self_args_unpackings
-
-    fields = [f.name for f in cls.sympy_fields]
-    mapping: dict[str, str] = {}
-    for st, elts, _ in self_args_unpackings(fn):
-        if len(elts) != len(fields):
-            raise ExtractionError(f"{fn.qual}: unpacking arity differs from the field list")
-        for e, f in zip(elts, fields):
-            if isinstance(e, ast.Name) and e.id != "_":
-                mapping[e.id] = f
-    # single assignments  x = printer._print(self.<field>)
-    for node in walk_function(fn.node, nested=False):
-        if isinstance(node, ast.Assign) and len(node.targets) == 1 and isinstance(node.targets[0], ast.Name):
-            for n in ast.walk(node.value):
-                if isinstance(n, ast.Attribute) and isinstance(n.value, ast.Name) and n.value.id == "self" and n.attr in fields:
-                    mapping.setdefault(node.targets[0].id, n.attr)
-    return mapping
+_TOKEN = re.compile("\x00(\\d+)\x00")
 
 
-def numpy_matrix(te: TermEval, tree: Tree, outer: str, impl: str, arg_atoms: list) -> Mat:
+def parse_code(text: str, what: str) -> ast.expr:
+    """The generated code as a Python expression; token n becomes the name ``__tn__``."""
+    source = _TOKEN.sub(lambda m: f" __t{m.group(1)}__ ", text).strip()
+    try:
+        return ast.parse(source, mode="eval").body
+    except SyntaxError:
+        raise ExtractionError(f"{what}: the generated code is not one Python expression: `{source[:80]}`") from None
+
+
+def _token_index(node: ast.AST) -> int | None:
+    if isinstance(node, ast.Name):
+        m = re.fullmatch(r"__t(\d+)__", node.id)
+        if m:
+            return int(m.group(1))
+    return None
+
+
+def _callee_name(node: ast.AST) -> str | None:
+    f = node.func if isinstance(node, ast.Call) else None
+    if isinstance(f, ast.Name):
+        return f.id
+    if isinstance(f, ast.Attribute):
+        return f.attr
+    return None
+
+
+def code_matrix(te: CodeEval, expr: ast.expr, what: str) -> Mat:
+    """``array([[c, ...], ...]).transpose((2, 0, 1))``: the 4x4 matrix of the cells' values.
+
+    A cell is an arithmetic expression over printed values (tokens), numbers and ``ones(...)`` / ``zeros(...)``."""
+    inner = None
+    if isinstance(expr, ast.Call) and isinstance(expr.func, ast.Attribute) and expr.func.attr == "transpose" and not expr.keywords:
+        axes = expr.args[0] if len(expr.args) == 1 and isinstance(expr.args[0], (ast.Tuple, ast.List)) else ast.Tuple(elts=list(expr.args))
+        if [getattr(e, "value", None) for e in axes.elts] != [2, 0, 1]:
+            raise ExtractionError(f"{what}: template lost its .transpose((2, 0, 1)) (batch axis): `{unparse(expr.func.value)[:0]}transpose({unparse(axes)})`")
+        inner = expr.func.value
+    elif isinstance(expr, ast.Call) and _callee_name(expr) == "array":
+        raise ExtractionError(f"{what}: template lost its .transpose((2, 0, 1)) (batch axis)")
+    if not (isinstance(inner, ast.Call) and _callee_name(inner) == "array" and len(inner.args) == 1 and not inner.keywords and isinstance(inner.args[0], (ast.List, ast.Tuple))):
+        raise ExtractionError(f"{what}: generated code is not `array([[...], ...]).transpose((2, 0, 1))`")
+    rows = []
+    for r in inner.args[0].elts:
+        if not isinstance(r, (ast.List, ast.Tuple)):
+            raise ExtractionError(f"{what}: a row of the generated array is not a list literal")
+        rows.append([_cell(te, c, what) for c in r.elts])
+    if len(rows) != 4 or any(len(r) != 4 for r in rows):
+        raise ExtractionError(f"{what}: generated array is not 4x4")
+    return Mat(rows)
+
+
+def _cell(te: CodeEval, node: ast.AST, what: str) -> RF:
+    k = _token_index(node)
+    if k is not None:
+        val = te.tokens[k]
+        if isinstance(val, RF):
+            a = te.single_atom(val)
+            if a is not None and te.is_app(a, "::_OnesArray"):
+                return RF.const(1)
+            if a is not None and te.is_app(a, "::_ZerosArray"):
+                return RF.const(0)
+        return te._rf(val)
+    if isinstance(node, ast.Constant) and isinstance(node.value, (int, float)) and not isinstance(node.value, bool):
+        from fractions import Fraction
+
+        return RF.const(Fraction(str(node.value)))
+    if isinstance(node, ast.UnaryOp) and isinstance(node.op, (ast.USub, ast.UAdd)):
+        v = _cell(te, node.operand, what)
+        return -v if isinstance(node.op, ast.USub) else v
+    if isinstance(node, ast.BinOp) and isinstance(node.op, (ast.Add, ast.Sub, ast.Mult, ast.Div, ast.Pow)):
+        lhs, rhs = _cell(te, node.left, what), _cell(te, node.right, what)
+        return {ast.Add: lambda: lhs + rhs, ast.Sub: lambda: lhs - rhs, ast.Mult: lambda: lhs * rhs, ast.Div: lambda: lhs / rhs, ast.Pow: lambda: lhs**rhs}[type(node.op)]()
+    if isinstance(node, ast.Call) and _callee_name(node) in {"ones", "zeros", "ones_like", "zeros_like"} and len(node.args) == 1:
+        return RF.const(1 if _callee_name(node).startswith("ones") else 0)  # one entry per event: the constant 1 / 0
+    raise ExtractionError(f"{what}: cell `{_TOKEN.sub('{..}', unparse(node))[:50]}` of the generated array is outside the rule's grammar")
+
+
+def numpy_matrix(te: CodeEval, tree: Tree, outer: str, impl: str, arg_atoms: list) -> Mat:
     """The matrix that the generated code lays out, in terms of the outer class's arguments."""
-    outer_q, impl_q = f"{LOR}::{outer}", f"{LOR}::{impl}"
+    outer_q = f"{LOR}::{outer}"
     atom = te.single_atom(te.construct(outer_q, arg_atoms, {}))
     built = te.unfold_atom(atom)  # evaluate(): the implementation App
-    ia = te.single_atom(built)
-    if ia is None or not te.is_app(ia, f"::{impl}"):
-        raise ExtractionError(f"{outer}.evaluate does not return a {impl}")
+    ia = te.single_atom(built) if isinstance(built, RF) else None
+    if ia is None or not te.is_app(ia) or te.apps[ia].cls not in te.classes:
+        raise ExtractionError(f"{outer}.evaluate does not return an instance of an implementation class")
     info = te.apps[ia]
-    cls = te.classes[impl_q]
-    field_vals = dict(zip([f.name for f in cls.sympy_fields], info.args))
-    fn = cls.method("_numpycode")
-    layout, tail = template_matrix(fn)
-    if "transpose((2, 0, 1))" not in tail.replace(" ", "").replace("transpose((2,0,1))", "transpose((2, 0, 1))") and "transpose" not in tail:
-        raise ExtractionError(f"{impl}._numpycode: template lost its .transpose((2, 0, 1)) (batch axis)")
-    ph = placeholder_fields(fn, cls)
-    rows = []
-    for r in layout:
-        row = []
-        for sign, name in r:
-            if name not in ph:
-                raise ExtractionError(f"{impl}._numpycode: placeholder {{{name}}} is not bound to a field")
-            val = field_vals[ph[name]]
-            if isinstance(val, RF):
-                a = te.single_atom(val)
-                if a is not None and te.is_app(a, "::_OnesArray"):
-                    val = RF.const(1)
-                elif a is not None and te.is_app(a, "::_ZerosArray"):
-                    val = RF.const(0)
-            row.append(sign * te._rf(val))
-        rows.append(row)
-    if len(rows) != 4 or any(len(r) != 4 for r in rows):
-        raise ExtractionError(f"{impl}._numpycode: template is not 4x4")
-    return Mat(rows)
+    cls = te.classes[info.cls]
+    fn = tree.lookup_method(cls.info, "_numpycode")
+    if fn is None:
+        raise ExtractionError(f"{cls.name} (what {outer}.evaluate returns) has no _numpycode")
+    text = te.run_printer(fn, te.self_env(info.cls, info)["self"])
+    return code_matrix(te, parse_code(text, fn.qual), fn.qual)
 
 
 def normalise_sqrt_flavour(te: TermEval, m: Mat) -> Mat:
@@ -175,26 +1084,48 @@ def normalise_sqrt_flavour(te: TermEval, m: Mat) -> Mat:
     return Mat([[fix(e) for e in r] for r in m.rows])
 
 
+def _explicit_matrix(te: TermEval, cls, args: list) -> Mat:
+    """``as_explicit()`` of the expression class on symbolic arguments - however the matrix is put together
+    (literal, ``sp.eye`` / ``sp.diag`` + item assignment, entries taken from ``self.evaluate()``, helpers)."""
+    atom = te.single_atom(te.construct(cls.qual, args, {}))
+    m = te.unfold_atom(atom, "as_explicit")
+    if not isinstance(m, Mat):
+        raise ExtractionError(f"{cls.name}.as_explicit does not evaluate to an explicit matrix (got {type(m).__name__})")
+    if m.shape != (4, 4):
+        raise ExtractionError(f"{cls.name}.as_explicit is a {m.shape[0]}x{m.shape[1]} matrix, not 4x4")
+    return m
+
+
+def _elementary_functions(te: TermEval, m: Mat) -> set:
+    """The applications of elementary functions (cos, sin, tan, exp, log, Abs ...) that occur in a matrix."""
+    from ..terms import OPAQUE_FUNCS, deep_atoms
+
+    return {repr(a) for a in deep_atoms(te, m) if te.is_app(a) and a in te.apps and te.apps[a].cls in OPAQUE_FUNCS}
+
+
 def check_siblings(ctx: Check, tree: Tree) -> dict[str, Mat]:
     explicit: dict[str, Mat] = {}
     D.reset()
-    te = TermEval(tree)
+    te = CodeEval(tree)
     for outer, impl in MATRIX_CLASSES.items():
         cls = te.classes.get(f"{LOR}::{outer}")
         if cls is None:
             raise AnalysisError(f"vanished anchor: {outer}")
         args = [sym(f.name) for f in cls.sympy_fields]
-        atom = te.single_atom(te.construct(cls.qual, args, {}))
-        a = te.unfold_atom(atom, "as_explicit")
-        if not isinstance(a, Mat) or a.shape != (4, 4):
-            raise ExtractionError(f"{outer}.as_explicit is not a 4x4 matrix literal")
-        a = normalise_sqrt_flavour(te, a)
+        a = normalise_sqrt_flavour(te, _explicit_matrix(te, cls, args))
         b = normalise_sqrt_flavour(te, numpy_matrix(te, tree, outer, impl, args))
         diffs = []
         for i in range(4):
             for j in range(4):
                 if not equal(a.rows[i][j], b.rows[i][j]):
                     diffs.append({"entry": [i, j], "as_explicit": repr(a.rows[i][j])[:120], "numpycode": repr(b.rows[i][j])[:120]})
+        if diffs:
+            # a difference is positive evidence only inside the term domain: polynomial identities over the SAME
+            # elementary functions.  cos(a)*tan(a) vs sin(a) is an identity the domain does not know: cannot decide
+            fa, fb = _elementary_functions(te, a), _elementary_functions(te, b)
+            if fa != fb:
+                raise ExtractionError(f"{outer}: as_explicit() and the generated code are written with different elementary functions "
+                                      f"({sorted(fa ^ fb)[0][:60]}): whether they agree is outside the polynomial term domain")
         ctx.verdict(not diffs, "R-TERM", f"{LOR}::{outer}::explicit-vs-numpycode", tree.loc(cls.info.node),
                     f"{outer}: the 16 entries of as_explicit() agree with the matrix laid out by {impl}._numpycode for the arguments that evaluate() passes",
                     diffs[:4] or None)
@@ -205,42 +1136,55 @@ def check_siblings(ctx: Check, tree: Tree) -> dict[str, Mat]:
 
 # --------------------------------------------------------------------------- metric / NegativeMomentum
 
+_METRIC = [[1, 0, 0, 0], [0, -1, 0, 0], [0, 0, -1, 0], [0, 0, 0, -1]]
+
+
+def _is_metric(m: Mat) -> bool:
+    return all(equal(m.rows[i][j], RF.const(_METRIC[i][j])) for i in range(4) for j in range(4))
+
 
 def check_metric(ctx: Check, tree: Tree) -> None:
-    te = TermEval(tree)
+    te = CodeEval(tree)
     p = sym("p")
-    cls = te.classes[f"{LOR}::MinkowskiMetric"]
+    cls = te.classes.get(f"{LOR}::MinkowskiMetric")
+    if cls is None:
+        raise AnalysisError("vanished anchor: MinkowskiMetric")
+    m = _explicit_matrix(te, cls, [p])
+    ok = _is_metric(m)
+    ctx.verdict(ok, "R-TERM", f"{LOR}::MinkowskiMetric.as_explicit::diag", tree.loc(cls.info.node), "MinkowskiMetric.as_explicit == diag(1,-1,-1,-1)",
+                None if ok else {"as_explicit": [[repr(e)[:20] for e in r] for r in m.rows]})
+    npc = tree.lookup_method(cls.info, "_numpycode")
+    if npc is None:
+        raise AnalysisError("vanished anchor: MinkowskiMetric._numpycode")
     atom = te.single_atom(te.construct(cls.qual, [p], {}))
-    m = te.unfold_atom(atom, "as_explicit")
-    want = [[1, 0, 0, 0], [0, -1, 0, 0], [0, 0, -1, 0], [0, 0, 0, -1]]
-    ok = isinstance(m, Mat) and all(equal(m.rows[i][j], RF.const(want[i][j])) for i in range(4) for j in range(4))
-    ctx.verdict(ok, "R-TERM", f"{LOR}::MinkowskiMetric.as_explicit::diag", tree.loc(cls.info.node), "MinkowskiMetric.as_explicit == diag(1,-1,-1,-1)")
-    npc = cls.method("_numpycode")
-    layout, _ = template_matrix(npc)
-    # the placeholders are locals built as f"ones(...)" / f"zeros(...)": classify by their definition
-    from ..dataflow import RD as _RD
-
-    prd = _RD(npc.node)
-    kind: dict[str, int] = {}
-    for d in prd.defs:
-        if d.value is not None and isinstance(d.value, ast.JoinedStr):
-            head = "".join(str(v.value) for v in d.value.values if isinstance(v, ast.Constant))
-            if head.startswith("ones("):
-                kind[d.name] = 1
-            elif head.startswith("zeros("):
-                kind[d.name] = 0
-    got = [[s * kind.get(n, 99) for s, n in r] for r in layout]
-    ctx.verdict(got == want, "R-TERM", f"{LOR}::MinkowskiMetric._numpycode::diag", tree.loc(cls.method("_numpycode").node),
-                "MinkowskiMetric._numpycode template == diag(ones,-ones,-ones,-ones)", None if got == want else {"template": got})
-    neg = te.classes[f"{LOR}::NegativeMomentum"]
+    text = te.run_printer(npc, te.self_env(cls.qual, te.apps[atom])["self"])
+    got = code_matrix(te, parse_code(text, npc.qual), npc.qual)  # ones(..) / zeros(..) per event are the constants 1 / 0
+    ok = _is_metric(got)
+    ctx.verdict(ok, "R-TERM", f"{LOR}::MinkowskiMetric._numpycode::diag", tree.loc(npc.node),
+                "MinkowskiMetric._numpycode template == diag(ones,-ones,-ones,-ones)", None if ok else {"template": [[repr(e)[:20] for e in r] for r in got.rows]})
+    neg = te.classes.get(f"{LOR}::NegativeMomentum")
+    if neg is None:
+        raise AnalysisError("vanished anchor: NegativeMomentum")
     v = te.unfold_atom(te.single_atom(te.construct(neg.qual, [p], {})))
     a = te.single_atom(v) if isinstance(v, RF) else None
-    ok = a is not None and te.is_app(a, "ArrayMultiplication")
-    if ok:
-        args = te.apps[a].args
-        first = te.single_atom(args[0]) if isinstance(args[0], RF) else None
-        ok = len(args) == 2 and first is not None and te.is_app(first, "::MinkowskiMetric") and equal(te._rf(args[1]), p) and equal(te._rf(te.apps[first].args[0]), p)
-    ctx.verdict(ok, "R-TERM", f"{LOR}::NegativeMomentum.evaluate", tree.loc(neg.info.node), "NegativeMomentum(p) == ArrayMultiplication(MinkowskiMetric(p), p)")
+    # understood shapes: the bare momentum (definitely not inverted) and ONE ArrayMultiplication(<matrix expression>, <vector>)
+    if a is not None and not te.is_app(a) and equal(v, p):
+        ok = False
+        detail = "evaluate() returns the momentum itself"
+    elif a is not None and te.is_app(a, "ArrayMultiplication") and len(te.apps[a].args) == 2:
+        first, second = te.apps[a].args
+        fa = te.single_atom(first) if isinstance(first, RF) else None
+        first_is_metric = False
+        if fa is not None and te.is_app(fa) and te.apps[fa].cls in te.classes and te.classes[te.apps[fa].cls].method("as_explicit") is not None:
+            fm = te.unfold_atom(fa, "as_explicit")
+            first_is_metric = isinstance(fm, Mat) and fm.shape == (4, 4) and _is_metric(fm) and len(te.apps[fa].args) == 1 and equal(te._rf(te.apps[fa].args[0]), p)
+        elif not (isinstance(first, RF) and equal(first, p)):
+            raise ExtractionError("NegativeMomentum.evaluate: the first factor of the ArrayMultiplication is neither the momentum nor an expression class with as_explicit()")
+        ok = first_is_metric and isinstance(second, RF) and equal(second, p)
+        detail = None if ok else "the product is not (metric of p) x p in this order"
+    else:
+        raise ExtractionError("NegativeMomentum.evaluate does not return ArrayMultiplication(<metric>, <momentum>) (shape outside the rule's grammar)")
+    ctx.verdict(ok, "R-TERM", f"{LOR}::NegativeMomentum.evaluate", tree.loc(neg.info.node), "NegativeMomentum(p) == ArrayMultiplication(MinkowskiMetric(p), p)", detail)
 
 
 # --------------------------------------------------------------------------- R-LORENTZ
@@ -264,6 +1208,30 @@ def lorentz_defect(m: Mat) -> list[list[RF]]:
     return out
 
 
+def _require_expressed_through(m: Mat, base: set, what: str) -> None:
+    """The identities below are decided in the algebra generated by ``base`` (and square roots over it); an entry
+    with any other sub-term (another function of the angle, an unexpanded helper class) cannot be judged: neither
+    a pass nor a violation."""
+
+    def foreign(v: RF) -> set:
+        out = set()
+        for a in v.atoms():
+            if a in base:
+                continue
+            if isinstance(a, tuple) and a and a[0] == "sqrt":
+                out |= foreign(RF(D.radicands[a]))
+            else:
+                out.add(a)
+        return out
+
+    extra = set()
+    for r in m.rows:
+        for e in r:
+            extra |= foreign(e)
+    if extra:
+        raise ExtractionError(f"{what}: entries contain sub-terms the rule has no relation for ({sorted(map(repr, extra))[0][:60]}): cannot decide the Lorentz identities")
+
+
 def check_lorentz(ctx: Check, tree: Tree, mats: dict) -> None:
     # rotations: modulo cos^2 + sin^2 = 1
     for name in ("RotationYMatrix", "RotationZMatrix"):
@@ -272,6 +1240,7 @@ def check_lorentz(ctx: Check, tree: Tree, mats: dict) -> None:
         cos = te.app("cos", [sym("angle")])
         sin = te.app("sin", [sym("angle")])
         sin_atom, cos_atom = te.single_atom(sin), te.single_atom(cos)
+        _require_expressed_through(m, {sin_atom, cos_atom}, f"{name}.as_explicit")
         D.set_relations([(sin_atom, 2, (RF.const(1) - cos * cos).n)])
         defect = lorentz_defect(m)
         bad = [(i, j, repr(defect[i][j])[:80]) for i in range(4) for j in range(4) if not defect[i][j].is_zero()]
@@ -293,6 +1262,7 @@ def check_lorentz(ctx: Check, tree: Tree, mats: dict) -> None:
     # z boost: modulo gamma^2 (1 - beta^2) = 1  <=>  sqrt(1-beta^2)^2 = 1-beta^2 (automatic: gamma = 1/sqrt(1-beta^2))
     te = mats["BoostZMatrix#te"]
     m = mats["BoostZMatrix"]
+    _require_expressed_through(m, {"beta"}, "BoostZMatrix.as_explicit")
     defect = lorentz_defect(m)
     bad = [(i, j, repr(defect[i][j])[:80]) for i in range(4) for j in range(4) if not defect[i][j].is_zero()]
     ctx.verdict(not bad, "R-LORENTZ", f"{LOR}::BoostZMatrix.as_explicit::lorentz", tree.loc(te.classes[f"{LOR}::BoostZMatrix"].info.node),
@@ -309,6 +1279,9 @@ def check_general_boost(ctx: Check, tree: Tree, mats: dict) -> None:
     te: TermEval = mats["BoostMatrix#te"]
     m: Mat = mats["BoostMatrix"]
     E, px, py, pz = sym("E"), sym("px"), sym("py"), sym("pz")
+    momentum = sym("momentum")  # the field of BoostMatrix that check_siblings built the explicit matrix for
+    if [f.name for f in te.classes[f"{LOR}::BoostMatrix"].sympy_fields] != ["momentum"]:
+        raise ExtractionError("BoostMatrix no longer has the single field `momentum`")
 
     def concretise(v: RF) -> RF:
         for _ in range(6):
@@ -318,18 +1291,23 @@ def check_general_boost(ctx: Check, tree: Tree, mats: dict) -> None:
                     info = te.apps[a]
                     name = info.cls.split("::")[-1]
                     rep = None
-                    if name == "Energy":
+                    arg0 = info.args[0] if info.args and isinstance(info.args[0], RF) else None
+                    of_momentum = arg0 is not None and equal(arg0, momentum)  # components of THE boosted momentum only
+                    inner = te.single_atom(arg0) if arg0 is not None else None
+                    of_three_momentum = (inner is not None and te.is_app(inner, "::ThreeMomentum") and len(te.apps[inner].args) == 1
+                                         and isinstance(te.apps[inner].args[0], RF) and equal(te.apps[inner].args[0], momentum))
+                    if name == "Energy" and of_momentum:
                         rep = E
-                    elif name == "FourMomentumX":
+                    elif name == "FourMomentumX" and of_momentum:
                         rep = px
-                    elif name == "FourMomentumY":
+                    elif name == "FourMomentumY" and of_momentum:
                         rep = py
-                    elif name == "FourMomentumZ":
+                    elif name == "FourMomentumZ" and of_momentum:
                         rep = pz
-                    elif name == "EuclideanNormSquared":
-                        inner = te.single_atom(info.args[0])
-                        if inner is not None and te.is_app(inner, "::ThreeMomentum"):
-                            rep = px**2 + py**2 + pz**2
+                    elif name == "EuclideanNormSquared" and of_three_momentum:
+                        rep = px**2 + py**2 + pz**2
+                    elif name == "EuclideanNorm" and of_three_momentum:
+                        rep = sqrt(px**2 + py**2 + pz**2)
                     if rep is not None:
                         v = v.substitute(a, rep)
                         changed = True
@@ -347,6 +1325,7 @@ def check_general_boost(ctx: Check, tree: Tree, mats: dict) -> None:
     leftover = {a for r in mc.rows for e in r for a in e.atoms() if te.is_app(a)}
     if leftover:
         raise ExtractionError(f"BoostMatrix.as_explicit: could not express {len(leftover)} sub-terms through (E, px, py, pz)")
+    _require_expressed_through(mc, {"E", "px", "py", "pz"}, "BoostMatrix.as_explicit")
     defect = lorentz_defect(mc)
     bad = [(i, j, repr(defect[i][j])[:100]) for i in range(4) for j in range(4) if not defect[i][j].is_zero()]
     ctx.verdict(not bad, "R-LORENTZ", f"{LOR}::BoostMatrix.as_explicit::lorentz", tree.loc(te.classes[f"{LOR}::BoostMatrix"].info.node),
@@ -366,60 +1345,150 @@ def check_general_boost(ctx: Check, tree: Tree, mats: dict) -> None:
                 "BoostMatrix is symmetric (pure boost, no rotation part)")
 
 
+# --------------------------------------------------------------------------- R-EINSUM
+
+
+class _Network:
+    """What a (possibly nested) ``einsum`` expression over printed tensors computes: which index slot of which
+    tensor is identified with which (union-find over slots ``(tensor, position)``), and the slots of the result."""
+
+    def __init__(self) -> None:
+        self.parent: dict = {}
+        self.factors: list[tuple[int, int]] = []  # (tensor, rank it is used with)
+
+    def find(self, x):
+        self.parent.setdefault(x, x)
+        while self.parent[x] != x:
+            self.parent[x] = self.parent[self.parent[x]]
+            x = self.parent[x]
+        return x
+
+    def union(self, a, b) -> None:
+        ra, rb = self.find(a), self.find(b)
+        if ra != rb:
+            self.parent[max(ra, rb)] = min(ra, rb)
+
+    def partition(self) -> set:
+        groups: dict = {}
+        for x in list(self.parent):
+            groups.setdefault(self.find(x), set()).add(x)
+        return {frozenset(g) for g in groups.values()}
+
+
+class _Malformed(Exception):
+    """The einsum call is understood and definitely wrong (operand count, ranks, batch axis)."""
+
+
+def _einsum_network(node: ast.AST, net: _Network, what: str, want_rank: int | None = None) -> list | None:
+    """Slots of the value of ``node`` (None for a bare tensor whose rank nothing fixes)."""
+    k = _token_index(node)
+    if k is not None:
+        if any(t == k for t, _ in net.factors):
+            raise _Malformed(f"tensor {k} is used twice")
+        if want_rank is None:
+            net.factors.append((k, -1))
+            return None
+        net.factors.append((k, want_rank))
+        return [(k, i) for i in range(want_rank)]
+    if isinstance(node, ast.Call) and _callee_name(node) == "einsum" and node.args and isinstance(node.args[0], ast.Constant) and isinstance(node.args[0].value, str):
+        if any(kw.arg not in {"optimize"} for kw in node.keywords):
+            raise ExtractionError(f"{what}: einsum keyword `{[kw.arg for kw in node.keywords]}` is outside the rule's grammar")
+        spec = node.args[0].value.replace(" ", "")
+        if spec.count("->") != 1:
+            raise ExtractionError(f"{what}: einsum subscripts `{spec}` without explicit output")
+        ins, out = spec.split("->")
+        subs = ins.split(",") if ins else []
+        operands = node.args[1:]
+        if len(subs) != len(operands):
+            raise _Malformed(f"einsum subscripts `{spec}` describe {len(subs)} operand(s) but {len(operands)} are passed")
+        if any(not x.startswith("...") for x in [*subs, out]):
+            raise _Malformed(f"einsum subscripts `{spec}`: an operand or the output lacks the leading `...` (the batch axis of the events)")
+        letters: dict[str, list] = {}
+        for sub, operand in zip(subs, operands):
+            idx = sub[3:]
+            if not idx.isalpha() and idx:
+                raise ExtractionError(f"{what}: einsum subscripts `{spec}` outside the rule's grammar")
+            slots = _einsum_network(operand, net, what, len(idx))
+            if slots is None or len(slots) != len(idx):
+                raise _Malformed(f"einsum subscripts `{sub}` for an operand of rank {0 if slots is None else len(slots)}")
+            for ch, slot in zip(idx, slots):
+                letters.setdefault(ch, []).append(slot)
+        for slots in letters.values():
+            for other in slots[1:]:
+                net.union(slots[0], other)
+            net.find(slots[0])
+        result = []
+        for ch in out[3:]:
+            if ch not in letters:
+                raise _Malformed(f"einsum subscripts `{spec}`: output index {ch} does not occur in an operand")
+            result.append(letters[ch][0])
+        if len(set(out[3:])) != len(out[3:]):
+            raise _Malformed(f"einsum subscripts `{spec}`: repeated output index")
+        return result
+    raise ExtractionError(f"{what}: `{_TOKEN.sub('{..}', unparse(node))[:60]}` is neither a printed tensor nor an einsum call (shape outside the rule's grammar)")
+
+
+def _chain_problem(te: CodeEval, text: str, n: int, vector_last: bool, what: str) -> str | None:
+    """None if the generated code computes T0 . T1 ... T(n-1) (matrix chain; the last factor a vector if
+    ``vector_last``) over the n printed tensors in argument order; otherwise what is definitely wrong."""
+    if not text.strip():
+        return "no code is generated"
+    expr = parse_code(text, what)
+    net = _Network()
+    try:
+        out = _einsum_network(expr, net, what)
+    except _Malformed as exc:
+        return str(exc)
+    used = sorted(t for t, _ in net.factors)
+    if used != list(range(n)):
+        missing = sorted(set(range(n)) - set(used))
+        return f"printed tensors {used} reach the einsum, argument(s) {missing} do not"
+    if out is None:
+        return None if n == 1 else "a single tensor is returned"
+    ranks = {t: r for t, r in net.factors}
+    want_ranks = {k: (1 if vector_last and k == n - 1 else 2) for k in range(n)}
+    if ranks != want_ranks:
+        return f"tensors are used with ranks {ranks}, a matrix chain needs {want_ranks}"
+    want = _Network()
+    for k in range(n):
+        for i in range(want_ranks[k]):
+            want.find((k, i))
+    for k in range(n - 1):
+        want.union((k, 1), (k + 1, 0))
+    want_out = [(0, 0)] if vector_last else [(0, 0), (n - 1, 1)]
+    if n == 1 and vector_last:
+        want_out = [(0, 0)]
+    got_out = [net.find(x) for x in out]
+    if net.partition() != want.partition() or got_out != [want.find(x) for x in want_out]:
+        return "the contraction does not join each tensor's last index with the first index of the NEXT argument (order of a non-commutative product)"
+    return None
+
+
 def check_einsum_printers(ctx: Check, tree: Tree) -> None:
-    """ArrayMultiplication / MatrixMultiplication._numpycode: every printed tensor reaches
-    ONE einsum call in argument order, with the contraction string for that many tensors.
-
-    The contraction strings themselves are built by loops (not decided; the doctests pin
-    n = 1, 2, 3).  A printer of another shape is outside the rule's grammar: ANALYSIS-ERROR,
-    neither pass nor violation."""
-    from ..canon import canon
-    from ..dataflow import RD as _RD
-
-    for cls_name in ("ArrayMultiplication", "MatrixMultiplication"):
+    """ArrayMultiplication / MatrixMultiplication._numpycode: for n = 1..4 operands the generated code is read as the
+    tensor network it denotes (bare tensor, one einsum, nested einsums): it must be the chain T0.T1...T(n-1) over
+    ALL printed arguments IN ORDER - however the contraction string and the operand list are put together.  A printer
+    whose text is not tensors / einsum calls is outside the rule's grammar: ANALYSIS-ERROR."""
+    for cls_name, vector_last in (("ArrayMultiplication", True), ("MatrixMultiplication", False)):
         cls = tree.cls(f"ampform.sympy._array_expressions::{cls_name}")
-        fn = cls.methods.get("_numpycode")
+        fn = tree.lookup_method(cls, "_numpycode")
         if fn is None:
             raise AnalysisError(f"vanished anchor: {cls_name}._numpycode")
-        rd = _RD(fn.node)
-        rets = [r for r in walk_function(fn.node, nested=False) if isinstance(r, ast.Return)]
-        final = [r for r in rets if isinstance(r.value, ast.JoinedStr)]
-        if len(final) != 1:
-            raise ExtractionError(f"{cls_name}._numpycode: expected exactly one f-string return that builds the einsum call (shape outside the rule's grammar)")
-        js = final[0].value
-        text = "".join(str(v.value) if isinstance(v, ast.Constant) else "\x00" for v in js.values)
-        holes = [v.value for v in js.values if isinstance(v, ast.FormattedValue)]
-        if text.replace(" ", "") != 'einsum("\x00",\x00)' or len(holes) != 2:
-            raise ExtractionError(f"{cls_name}._numpycode: return is not einsum(\"<contraction>\", <tensors>) (shape outside the rule's grammar)")
-        contraction, joined = holes
         problems = []
-        # the tensor list: list(map(printer._print, self.args)) - all arguments, in order
-        tensor_defs = []
-        if isinstance(joined, ast.Call) and isinstance(joined.func, ast.Attribute) and joined.func.attr == "join" and len(joined.args) == 1:
-            sep = joined.func.value
-            if not (isinstance(sep, ast.Constant) and sep.value.strip() == ","):
-                problems.append(f"tensors are joined with {unparse(sep)} instead of a comma")
-            arg = joined.args[0]
-            if not isinstance(arg, ast.Name):
-                problems.append(f"joins `{unparse(arg)[:40]}`, not the list of all printed tensors")
-            else:
-                tensor_defs = list(rd.reaching(arg))
-        else:
-            raise ExtractionError(f"{cls_name}._numpycode: tensors are not passed as \", \".join(<list>)")
-        for d in tensor_defs:
-            v = unparse(d.value).replace(" ", "") if d.value is not None else ""
-            if v not in {"list(map(printer._print,self.args))", "list(map(printer._print,self.tensors))", "[printer._print(t)fortinself.args]"} or d.kind != "assign":
-                problems.append(f"the tensor list is `{unparse(d.value)[:60] if d.value is not None else d.kind}`, not every argument printed in order")
-        # the contraction: self._create_einsum_subscripts(len(<tensor list>))
-        cdefs = list(rd.reaching(contraction)) if isinstance(contraction, ast.Name) else []
-        cvals = [unparse(d.value).replace(" ", "") for d in cdefs if d.value is not None] or [unparse(contraction).replace(" ", "")]
-        tname = joined.args[0].id if isinstance(joined.args[0], ast.Name) else "?"
-        if not all(v == f"self._create_einsum_subscripts(len({tname}))" for v in cvals):
-            problems.append(f"contraction is `{cvals}`, not _create_einsum_subscripts(len({tname}))")
-        # short cuts for 0 / 1 tensors
-        shortcuts = {unparse(r.value) for r in rets if r is not final[0]}
-        if not shortcuts <= {"''", f"{tname}[0]"}:
-            problems.append(f"unexpected early returns {sorted(shortcuts)}")
+        for n in (1, 2, 3, 4):
+            te = CodeEval(tree)
+            tensors = [sym(f"T{k}") for k in range(n)]
+            text = te.run_printer(fn, {"args": Tup(list(tensors)), "__class__": Opaque(("ref", cls.qual))})
+            printed = [te.single_atom(v) if isinstance(v, RF) else None for v in te.tokens]
+            names = [f"T{k}" for k in range(n)]
+            order = [names.index(a) if isinstance(a, str) and a in names else None for a in printed]
+            if None in order:
+                raise ExtractionError(f"{cls_name}._numpycode: prints something that is not one of its arguments")
+            # token k stands for argument order[k]: rename tokens to argument positions
+            renamed = _TOKEN.sub(lambda m: f"\x00{order[int(m.group(1))]}\x00", text)
+            problem = _chain_problem(te, renamed, n, vector_last, f"{cls_name}._numpycode")
+            if problem:
+                problems.append(f"{n} operand(s): {problem}")
         ctx.verdict(not problems, "R-EINSUM", f"{cls.qual}._numpycode::single-ordered-einsum", tree.loc(fn.node),
                     f"{cls_name}._numpycode == einsum(<contraction for n tensors>, <all n printed arguments in order>)", problems or None)
 
@@ -427,12 +1496,12 @@ def check_einsum_printers(ctx: Check, tree: Tree) -> None:
 def run(ctx: Check, tree: Tree) -> None:
     ctx.decided += [
         "R-PREC: templates of the kinematics / array printers never put an unparenthesised printed sub-expression next to a tighter-binding operator",
-        "R-EINSUM: Array/MatrixMultiplication print ONE einsum over all printed arguments in order with the contraction for that many tensors (the contraction strings themselves are not decided)",
-        "R-PRINT: every value interpolated into generated code by the printer methods passes printer._print (or is a literal / class-level literal)",
-        "R-TERM: as_explicit() == matrix laid out by the numpy template for the arguments evaluate() passes (BoostZ, RotationY, RotationZ, Boost: 4x16 entries); metric literal; NegativeMomentum = eta·p",
+        "R-EINSUM: the code Array/MatrixMultiplication generate for 1..4 operands, read as a tensor network (bare tensor, one einsum or nested einsums, contraction strings evaluated), is the ordered chain T0.T1...T(n-1) over all printed arguments with the batch axis `...` on every operand",
+        "R-PRINT: every value written into generated code by the printer methods passes printer._print (or is a literal / class-level literal); helpers (methods, module functions, nested functions, lambdas, generators) are followed with their parameters bound to the kinds of the arguments",
+        "R-TERM: as_explicit() (literal, sp.eye/sp.diag + item assignment, entries taken from evaluate()) == matrix laid out by the generated numpy code (printer method run on an abstract printer, text parsed) for the arguments evaluate() passes (BoostZ, RotationY, RotationZ, Boost: 4x16 entries); metric; NegativeMomentum = eta·p",
         "R-LORENTZ: R^T eta R = eta for both rotations (mod cos^2+sin^2=1), B_z^T eta B_z = eta, handedness / direction roles; the general boost after unfolding beta_i = p_i/E, B(p)p = (m,0,0,0), symmetry",
     ]
-    ctx.not_decided += ["einsum subscript strings of Array/MatrixMultiplication (built in a loop at run time)", "batch sizes", "floating-point accuracy over orders of magnitude of beta*gamma"]
+    ctx.not_decided += ["products of more than 4 operands (the einsum subscripts are checked for 1..4)", "batch sizes", "floating-point accuracy over orders of magnitude of beta*gamma"]
     ctx.assumptions += [
         "ComplexSqrt(x) == sqrt(x) for x >= 0 (beta <= 1); formal radical algebra at a generic positive point",
         "the str printer is not NumPy code (SymPy): a raw SymPy object inside an f-string prints as e.g. `ArrayAxisSum(...)`",
